@@ -266,6 +266,14 @@ pub fn run(opts: &Opts) -> i32 {
         };
         inputs.push((format!("literal:{k}"), text));
     }
+    // shapes that have gone wrong before, or nearly
+    for (k, text) in [
+        "exists (X : VType) . (exists (Y : VType) . X * Y)\n", "exists (X : VType) (Y : VType) . X * Y\n", "forall (X : VType) . (forall (Y : VType) . X -> Ret Y)\n",
+        "fn x => (fn y => x)\n", "pi (x : A) . (pi (y : B) . C)\n", "f ((g x))\n", "A -> (B -> C) -> D\n", "(A * B) * C * (D * E)\n", "! ((f x))\n", "((f x))/field\n",
+        "exists ((x)) . B\n", "(field = field, ((x)))\n", "let foo : Int\n  -> Int = bar in\nfoo\n",
+    ].iter().enumerate() {
+        inputs.push((format!("regression:{k}"), text.to_string()));
+    }
     // unparseable inputs (C12): the file must be left as it is
     for (k, (p, t)) in corpus.iter().enumerate() {
         if !(opts.thorough() || k % 4 == 0) {
@@ -350,6 +358,9 @@ pub fn run(opts: &Opts) -> i32 {
                         "glued-line-comment".into()
                     } else if text.contains("verbatim") {
                         "verbatim-directive".into()
+                    } else if fmt::squeeze_parens(&text).contains(".(exists") && !fmt::squeeze_parens(&out).contains(".(exists") {
+                        // the parentheses around an `exists` that is the body of an `exists` were dropped
+                        "nested-exists-parentheses".into()
                     } else {
                         bad.into()
                     }
